@@ -6,12 +6,12 @@ ROOT = os.path.dirname(os.path.dirname(os.path.abspath(__file__)))
 meta = json.load(open(os.path.join(ROOT, "tools", "registry_meta.json")))
 imported = set(re.findall(r"import\s+(LowProofs\.Props\.C\d+)", open(os.path.join(ROOT, "lean", "LowProofs.lean")).read()))
 reg = {}
-mods = sorted(imported) + sorted(m for v in meta.values() for m in v.get("extra_modules", []))
-for mod in mods:
-    pid = mod.split(".")[-1][:3]
+mods = [(m, m.split(".")[-1][:3]) for m in sorted(imported)] + sorted((m, pid) for pid, v in meta.items() for m in v.get("extra_modules", []))
+for mod, pid in mods:
     src = open(os.path.join(ROOT, "lean", mod.replace(".", "/") + ".lean")).read()
     thms = []
-    for m in re.finditer(r"(/--(?:(?!-/).)*-/\s*)?theorem\s+(%s_\w+'?)" % pid, src, flags=re.S):
+    pat = "Tie" if ".Tie." in mod else pid
+    for m in re.finditer(r"(/--(?:(?!-/).)*-/\s*)?theorem\s+(%s_\w+'?)" % pat, src, flags=re.S):
         doc = re.sub(r"\s+", " ", (m.group(1) or "").replace("/--", "").replace("-/", "")).strip()
         thms.append(dict(name="Low." + m.group(2), module=mod, clause=doc[:300] or m.group(2)))
     mm = meta.get(pid, {})
